@@ -921,6 +921,9 @@ enum cc_stat cc_deque_filter(CC_Deque *deque, bool (*pred) (const void*), CC_Deq
  */
 static void copy_buffer(CC_Deque const * const deque, void **buff, void *(*cp) (void *))
 {
+    if (deque->size == 0)
+        return;
+
     if (cp == NULL) {
         if (deque->last > deque->first) {
             memcpy(buff,
